@@ -44,4 +44,8 @@ META.update({
  "C15": {"text": "Instrumented NewPrepareRequest / GetVerified / NewBlockFromContext / Broadcast: the proposal equals the context values and the pool in order, timestamp > previous and = truncated clock whenever that is larger, and the primary's own block carries the same values - over drawn clocks, increments, pools, views and backward clock steps.",
          "design_ref": "DESIGN.md 4/C15", "note": "Trusted base: the monitor's own timestamp arithmetic.", "technique": "property-based testing (rapid) of one real instance with scripted peers; direct oracle on constructor arguments"},
 })
+META.update({
+ "C19": {"text": "Round-trip, single-field-mutation, sign/verify and Merkle oracles over generated values of the bundled reference payload/block/crypto code, plus decoder robustness on random and corrupted bytes (rapid; native fuzzing in the thorough tier).",
+         "design_ref": "DESIGN.md 4/C19", "note": "Trusted base: Go's crypto/ecdsa, sha256 and encoding/gob; the observable() rendering used to compare payloads reads every getter the library uses, in the library's order.", "technique": "property-based testing (rapid): round-trip, mutation and differential oracles; native go fuzzing of the decoder (thorough)"},
+})
 NOT_APPLICABLE = []
